@@ -23,6 +23,21 @@ CHECKS["C01"] = dict(
     design="5/C01",
 )
 
+CHECKS["C04"] = dict(
+    engine="E1-config-lattice",
+    technique="full product of evaluator lists x spin modes x nspin x baselines x rhocut, Richardson differentiation of the real evaluators w.r.t. every input",
+    text="The full product of evaluator lists (Python kernel, C squared-exponential kernels incl. constant-scaled, antisymmetric and spin variants, spline sets, linear, lists of several accumulating into shared buffers) x SEP/NPOL/POL x nspin x every native baseline code (multiplicative and additive, incl. the default None) x rhocut, and the libxc-backed variant with every code of the libxc tables (incl. SS_/OS_ splits), is evaluated on a 162-point lattice; dres (and vrho/vsigma/vtau for MappedXC2) is compared with Richardson-extrapolated derivatives of res with respect to every (spin, feature) input. Evaluator-level states check buffer accumulation, batch independence around the internal chunk size 2000, and the evaluator's own gradient.",
+    note="Lattice stays inside the admissible feature domain, away from kinks and cutoff thresholds; NNEvaluator excluded (no torch). Quick tier = full products of two sub-lattices; thorough = the full product.",
+    design="5/C04",
+)
+CHECKS["C07"] = dict(
+    engine="E1-config-lattice",
+    technique="edge relations on the nspin edge of the configuration lattice, end to end and layer by layer, on the real integrators/generators/plans",
+    text="For every enumerated configuration (full products family x semilocal mode x spin mode, spin mode x evaluator x baseline, spin mode x baseline x mixing; deviations<=1 otherwise) the three spin relations (closed shell, label swap, separable splitting) are evaluated between the nr_rks and nr_uks realisations, for energy, both potential matrices and nelec; the same relations are evaluated at each layer that carries an nspin factor (semilocal plan incl. its potential, exponent functions and their derivatives, NLDF generators for all versions/plans/rho_mult incl. the reverse pass, SDMX generators, native and libxc model evaluators).",
+    note="Tolerance 2e-11 relative (measured 4e-15); models whose multiplicative baseline is not density weighted ('ONE') are compared at 1e-7 because the 1e-16 regularisers of s^2/alpha at rho<1e-6 are not spin-scaling invariant by construction.",
+    design="5/C07",
+)
+
 NOT_YET = {}
 
 
